@@ -1,7 +1,8 @@
 #!/bin/bash
 # Run once after a fresh restore, offline: builds the framework from files on disk and warms the build cache.
 set -euo pipefail
-cd /verif
+cd "$(dirname "$0")/.."
+VROOT=$(pwd)
 export GOFLAGS=-mod=mod GOPROXY=off GOSUMDB=off GOTOOLCHAIN=local
 mkdir -p .work evidence replay
 scripts/build.sh plain >/dev/null
